@@ -855,7 +855,7 @@ func c14GenSmall(r *Rand) string {
 func c14Gen(r *Rand, tier string) []string {
 	nSmall, nRender := 2500, 2500
 	if tier == "thorough" {
-		nSmall, nRender = 60000, 60000
+		nSmall, nRender = 150000, 150000
 	}
 	var out []string
 	for i := 0; i < nSmall; i++ {
@@ -911,6 +911,29 @@ func c14Gen(r *Rand, tier string) []string {
 			}
 		}
 		rec(nil)
+		// exhaustive: WriteRow scripts of up to three steps over a small alphabet of rows and cell lists
+		// (empty row, narrow, wide, ragged, coloured, beyond maxRows), every table size, colour on and off
+		rowCells := []string{".", HexListS([]string{"a"}), HexListS([]string{"bb", "c"}), HexListS([]string{"\x1b[1mxyz\x1b[0m", "", "dd"})}
+		var recT func(steps []string)
+		recT = func(steps []string) {
+			if len(steps) > 0 {
+				for _, col := range []string{"0", "1"} {
+					for mc := 0; mc <= 2; mc++ {
+						for mr := 1; mr <= 3; mr++ {
+							out = append(out, fmt.Sprintf("tablew %s %d %d %s", col, mc, mr, strings.Join(steps, "/")))
+						}
+					}
+				}
+			}
+			if len(steps) < 3 {
+				for rn := 0; rn <= 2; rn++ {
+					for _, cs := range rowCells {
+						recT(append(append([]string{}, steps...), fmt.Sprintf("%d:%s", rn, cs)))
+					}
+				}
+			}
+		}
+		recT(nil)
 	}
 	return out
 }
@@ -987,6 +1010,10 @@ func c14Corpus() []string {
 		// reduce table: a group key with more parts than group columns (fixed 73473fc; the real CLI is run by extra/C14.py)
 		"render reduce 0 5 5 6b 7b307d . . 61;62 0:1",
 		"render reduce 1 5 5 6b 7b307d 6e 7b2e7d7b327d 61;62 0:1:0,1:1:0",
+		// formatter purity: the same value under another range (seeded change C14-format-memo)
+		"fmtseq x7b73756269207b327d207b307d7d 21:0:23,21:0:92882",
+		"render bars 0 0 linear x7b307d206f66207b327d 0 50 61616161;62626262 - 0:0:5,1:0:9",
+		"render table 0 x7b307d2f7b327d 0 0 4 4 7231;7232;7233 6331;6332 0:0:1,1:1:2|2:0:7",
 	}
 }
 
